@@ -576,6 +576,8 @@ def finalize(merged, tier, seed):
     want = 3 * (6 if tier == "quick" else 8)
     if len(rows) < want:
         merged["inconclusive"].append(f"only {len(rows)} of {want} (rule,size) closures were attempted")
-    small_open = [r for r in rows if not r["closed"] and r["size"] <= (5 if tier == "quick" else 7)]
+    # closure is REQUIRED up to size 5 (quick) / 6 (thorough); larger sizes are attempted with the remaining budget and
+    # reported as closed or not (a loaded machine must not turn a budget overrun into a broken check)
+    small_open = [r for r in rows if not r["closed"] and r["size"] <= (5 if tier == "quick" else 6)]
     if small_open:
         merged["inconclusive"].append(f"closure not reached within budget for {[(r['rule'], r['size']) for r in small_open]}")
